@@ -16,8 +16,16 @@
 (*  C19.reject   it does not fit => the call raised InvalidInputError       *)
 (*  C19.noCrash  the call succeeded or raised InvalidInputError, never      *)
 (*               anything else                                              *)
-(*  C19.inv      after an accepted request every cell+partition is within   *)
-(*               its capacity and every limited trait within its limits     *)
+(*  C19.inv      after an accepted request the reservation's own             *)
+(*               cell+partition is within its capacity and every limited    *)
+(*               trait it carries within its limit (LocalOk; by induction   *)
+(*               the whole table, unless a partition was rewritten smaller) *)
+(* A line may also be Reconf: the environment rewrote a partition record    *)
+(* (capacity / limits); its post-state carries the new partition table.     *)
+(* Oversubscription is a legal state; the clauses are unchanged by it: free *)
+(* = bound - sum(others) per dimension, possibly negative, demand <= free   *)
+(* in every dimension or InvalidInputError -- a zero demand does not pass a *)
+(* negative remainder.                                                      *)
 (*  drift.step   the directory after the call is what ReserveCore computes  *)
 (*                                                                          *)
 (* Beyond C19 (CellSyncCore.tla; conformance class: DRIFT, never a          *)
@@ -89,8 +97,8 @@ ExtDir(rs) ==
 DocList(post, c) == (CHOOSE d \in SetOf(post.docs) : d.cell = c).entries
 DocFun(es) == [nm \in {e.name : e \in SetOf(es)} |->
                  MetaOf(CHOOSE e \in SetOf(es) : e.name = nm)]
-ExtOf(tr, post) ==
-  [parts |-> CanonParts(tr.parts),
+ExtOf(parts, post) ==
+  [parts |-> parts,
    dir |-> ExtDir(post.res),
    docs |-> [c \in {d.cell : d \in SetOf(post.docs)} |-> DocFun(DocList(post, c))],
    ev |-> [c \in {d.cell : d \in SetOf(post.docs)} |->
@@ -111,12 +119,15 @@ ExpectedDir(px, line) ==
          IF line.out = "ok" THEN UnassignX(px, id, line.r.pattern).dir ELSE px.dir
     [] OTHER -> px.dir
 
-ExtFail(tr, prepost, line, post) ==
-  LET px == ExtOf(tr, prepost)
-      qx == ExtOf(tr, post)
+(* pparts / qparts: the partition table before / after the line; calm: no    *)
+(* partition has been rewritten in this trace so far (a document may        *)
+(* legitimately exceed a capacity that was lowered after it was written)    *)
+ExtFail(pparts, qparts, calm, prepost, line, post) ==
+  LET px == ExtOf(pparts, prepost)
+      qx == ExtOf(qparts, post)
       c == line.id.cell
   IN F("ext.dir.meta", qx.dir = ExpectedDir(px, line))
-     \cup F("ext.cellsync.capacity", DocWithinCapacity(qx))
+     \cup F("ext.cellsync.capacity", calm => DocWithinCapacity(qx))
      \cup (IF line.ev = "Sync"
            THEN F("ext.cellsync.doc", line.out = "ok" /\ FreshOk(qx, c) /\ FreshUnitsOk(qx, c))
                 \cup F("ext.cellsync.unique",
@@ -129,8 +140,8 @@ ExtFail(tr, prepost, line, post) ==
                          /\ \A k \in DOMAIN px.docs \ {c} : k \in DOMAIN qx.docs /\ qx.docs[k] = px.docs[k])
            ELSE F("ext.cellsync.frame", qx.docs = px.docs /\ qx.ev = px.ev))
 
-ExtEx(tr, prepost, line, post) ==
-  LET px == ExtOf(tr, prepost)
+ExtEx(pparts, prepost, line, post) ==
+  LET px == ExtOf(pparts, prepost)
       c == line.id.cell
   IN IF line.ev # "Sync" THEN E("ext.assign", line.ev \in {"Assign", "Unassign"})
      ELSE E("ext.sync", TRUE)
@@ -147,19 +158,30 @@ RequestVerdict(pre, line, post) ==
   IN [fail |-> F("C19.accept", fits => out = "ok")
                \cup F("C19.reject", ~fits => out = "invalid")
                \cup F("C19.noCrash", out \in {"ok", "invalid"})
-               \cup F("C19.inv", out = "ok" => InvC19(post))
+               \cup F("C19.inv", out = "ok" => LocalOk(post, id))
                \cup F("drift.step", post = After(pre, id, r, IF out = "ok" THEN "ok" ELSE "invalid")),
       ex |-> E("C19", Others(pre, id, r.part) # {})
              \cup E("trait", SharesLimitedTrait(pre, id, r))
              \cup E("replace", id \in Present(pre) /\ pre.res[id].part = r.part)
-             \cup E("accept", fits) \cup E("reject", ~fits)]
+             \cup E("accept", fits) \cup E("reject", ~fits)
+             \cup E("oversub", OverDims(pre, id, r) # {})
+             \cup E("oversub.zero", ZeroIntoOver(pre, id, r))]
 
 Verdict(pre, line, post) ==
   IF line.ev = "Delete"
   THEN [fail |-> F("drift.step", line.out = "ok" /\ post = Drop(pre, IdOf(line.id))), ex |-> {}]
   ELSE IF line.ev \in {"Sync", "Assign", "Unassign"}
   THEN [fail |-> F("drift.step", post = pre), ex |-> {}]      \* nothing admission looks at moves
+  ELSE IF line.ev = "Reconf"      \* the environment rewrote a partition record
+  THEN [fail |-> F("drift.step",
+                   post = Reconf(pre, line.id.cell, line.r.part,
+                                 [cap |-> ValOf(QOf(line.r.cap)), limits |-> CanonLimits(line.r.limits)])),
+        ex |-> E("reconf", TRUE) \cup E("reconf.over", ~InvC19(post))]
   ELSE RequestVerdict(pre, line, post)
+
+PartsAfter(pre, line) ==
+  IF line.ev = "Reconf" THEN CanonParts(line.post.parts) ELSE pre.parts
+Calm(tr, upto) == \A j \in 1..upto : tr.lines[j].ev # "Reconf"
 
 Init == /\ t \in DOMAIN Traces
         /\ i = 1
@@ -168,11 +190,12 @@ Init == /\ t \in DOMAIN Traces
 Next == /\ i < Len(Traces[t].lines)
         /\ i' = i + 1
         /\ t' = t
-        /\ st' = Canon(Traces[t], Traces[t].lines[i + 1].post)
+        /\ st' = [parts |-> PartsAfter(st, Traces[t].lines[i + 1]),
+                  res |-> CanonRes(Traces[t].lines[i + 1].post.res)]
         /\ LET v == Verdict(st, Traces[t].lines[i + 1], st')
-               xf == ExtFail(Traces[t], Traces[t].lines[i].post, Traces[t].lines[i + 1],
-                             Traces[t].lines[i + 1].post)
-               xe == ExtEx(Traces[t], Traces[t].lines[i].post, Traces[t].lines[i + 1],
+               xf == ExtFail(st.parts, st'.parts, Calm(Traces[t], i + 1), Traces[t].lines[i].post,
+                             Traces[t].lines[i + 1], Traces[t].lines[i + 1].post)
+               xe == ExtEx(st.parts, Traces[t].lines[i].post, Traces[t].lines[i + 1],
                            Traces[t].lines[i + 1].post)
            IN PrintT(ToJson([tid |-> Traces[t].tid, i |-> i, fail |-> v.fail \cup xf,
                              ex |-> v.ex \cup xe]))
